@@ -178,6 +178,9 @@ type tScreen struct {
 	title        string
 	setClipboard string
 
+	cursorStyleSent CursorStyle // style the terminal was last told to use
+	cursorColorSent bool        // the terminal was told to use a cursor color
+
 	sync.Mutex
 }
 
@@ -989,14 +992,17 @@ func (t *tScreen) showCursor() {
 	if t.cursorStyles != nil {
 		if esc, ok := t.cursorStyles[t.cursorStyle]; ok {
 			t.TPuts(esc)
+			t.cursorStyleSent = t.cursorStyle
 		}
 	}
 	if t.cursorRGB != "" {
 		if t.cursorColor == ColorReset {
 			t.TPuts(t.cursorFg)
+			t.cursorColorSent = false
 		} else if t.cursorColor.Valid() {
 			r, g, b := t.cursorColor.RGB()
 			t.TPuts(t.ti.TParm(t.cursorRGB, int(r), int(g), int(b)))
+			t.cursorColorSent = true
 		}
 	}
 	t.cx = x
@@ -2082,11 +2088,13 @@ func (t *tScreen) disengage() {
 	ti := t.ti
 	t.cells.Resize(0, 0)
 	t.TPuts(ti.ShowCursor)
-	if t.cursorStyles != nil && t.cursorStyle != CursorStyleDefault {
+	if t.cursorStyles != nil && t.cursorStyleSent != CursorStyleDefault {
 		t.TPuts(t.cursorStyles[CursorStyleDefault])
+		t.cursorStyleSent = CursorStyleDefault
 	}
-	if t.cursorFg != "" && t.cursorColor.Valid() {
+	if t.cursorFg != "" && t.cursorColorSent {
 		t.TPuts(t.cursorFg)
+		t.cursorColorSent = false
 	}
 	t.TPuts(ti.ResetFgBg)
 	t.TPuts(ti.AttrOff)
